@@ -301,7 +301,7 @@ PROPS = {
                     'Evaluator::set_* / TryFrom<EvalOutput>'],
     ),
     'C14': dict(
-        units=['env', 'envmerge'],
+        units=['env', 'envmerge', 'assign'],
         deps=[('builder', 'C04')],
         witness=['c14', '--programs', '1200'],
         witness_thorough=['c14', '--programs', '150000'],
@@ -318,7 +318,7 @@ PROPS = {
               'every variable denotes what it denoted before the scope was entered (a shadowing binding ends with its scope, and assignments inside go to '
               'the inner binding). (2) CircuitBuilder::mux_envs, the merge of ONE variable (lifted inner block; push_mux by its contract from unit builder): '
               'every wire of the merged binding carries, for every input, the value of the binding of the path actually taken, and a variable that both '
-              'paths left on the same wires keeps them. NOT under contract: the walk of mux_envs over scopes and names (BTreeMap iteration), and the arms '
+              'paths left on the same wires keeps them. (3) where an assignment through an accessor lands (VarAssign arm of TypedStmt::compile, the lifted offset computations of the struct-field and tuple-field branches): the fields / components BEFORE the assigned one, one after the other, occupy the wires before it, and exactly the wires of the named field are selected for the read-modify-write (the size of a type is an uninterpreted function of the type). NOT under contract: the walk of mux_envs over scopes and names (BTreeMap iteration), and the arms '
               'of compile that USE the environment - VarAssign through nested accessors, the per-path clones of If / Match / JoinLoop / && / ||, the scopes of '
               'Block / FnCall / ForEachLoop; as the labelled bounded stand-in, random programs (let / let mut with shadowing, assignment and op-assignment '
               'through constant and input-dependent array / tuple / struct (three fields) accessors, whole-value copies, right-hand sides with side effects (also under a constant factor), nested blocks, if / else with side effects in '
